@@ -127,7 +127,7 @@ def targeted(chk, cases, bad, extra):
     c02_gen.report(chk, "C08", 32 | 128 | 4, mine, extra, "reset_histories", sig_fn=c08_gen.same_signature)
     same = sum(1 for c in mine for op, _ in c["ops"] if op[0] == "same")
     extra["reset_histories"]["same_assertions"] = same
-    n_pc = 60 if chk.tier == "quick" else 1500
+    n_pc = 60 if chk.tier == "quick" else 1000
     pc = [c08_gen.gen_case_plain_ctor(chk.rng, 4 if chk.tier == "quick" else 7) for _ in range(n_pc)]
     c02_gen.report(chk, "C08", 32 | 4, pc, extra, "plain_ctor_histories")
     hist = {}
